@@ -20,6 +20,21 @@ type printer struct {
 	recs    []Record
 	prefix  string
 	imports map[string]bool
+	latin1  bool
+}
+
+// toLatin1 re-encodes the runes U+0080..U+00FF as single bytes: what a file saved in ISO-8859-1
+// holds. The result is not valid UTF-8.
+func toLatin1(s string) string {
+	var b strings.Builder
+	for _, r := range s {
+		if r >= 0x80 && r <= 0xff {
+			b.WriteByte(byte(r))
+		} else {
+			b.WriteRune(r)
+		}
+	}
+	return b.String()
 }
 
 func (p *printer) w(s string) { p.sb.WriteString(s) }
@@ -285,7 +300,11 @@ func (p *printer) nodes(ns []Node, ind int, inline bool) {
 func (p *printer) node(n *Node, ind int) {
 	switch n.Kind {
 	case "text":
-		p.w(n.Text)
+		if p.latin1 {
+			p.w(toLatin1(n.Text))
+		} else {
+			p.w(n.Text)
+		}
 	case "expr":
 		p.w("{" + pad(n.L.Pad))
 		p.expr("string", p.src(n.E, n.L.ExprLines, ind))
@@ -447,7 +466,7 @@ func (p *printer) node(n *Node, ind int) {
 // position records of its Go expressions, and the imports it needs. Normalize must have been
 // applied to the file.
 func Print(f *File, prefix string) (string, []Record) {
-	p := &printer{prefix: prefix, imports: map[string]bool{}}
+	p := &printer{prefix: prefix, imports: map[string]bool{}, latin1: f.Latin1}
 	// print the body first into a scratch printer to learn the imports
 	scratch := &printer{prefix: prefix, imports: map[string]bool{}}
 	for i := range f.Templates {
